@@ -184,11 +184,12 @@ impl<I: Iterator> Iterator for TakeSkip<I> {
 }
 
 #[cfg(not(target_pointer_width = "16"))]
+#[cfg(not(almindor_mipidsi_verif_ptr16))]
 fn take_u32<I: Iterator>(iter: I, max_count: u32) -> impl Iterator<Item = I::Item> {
     iter.take(max_count.try_into().unwrap())
 }
 
-#[cfg(target_pointer_width = "16")]
+#[cfg(any(target_pointer_width = "16", almindor_mipidsi_verif_ptr16))]
 fn take_u32<I: Iterator>(iter: I, max_count: u32) -> impl Iterator<Item = I::Item> {
     let mut count = 0;
     iter.take_while(move |_| {
@@ -198,11 +199,12 @@ fn take_u32<I: Iterator>(iter: I, max_count: u32) -> impl Iterator<Item = I::Ite
 }
 
 #[cfg(not(target_pointer_width = "16"))]
+#[cfg(not(almindor_mipidsi_verif_ptr16))]
 fn nth_u32<I: Iterator>(mut iter: I, n: u32) -> Option<I::Item> {
     iter.nth(n.try_into().unwrap())
 }
 
-#[cfg(target_pointer_width = "16")]
+#[cfg(any(target_pointer_width = "16", almindor_mipidsi_verif_ptr16))]
 fn nth_u32<I: Iterator>(mut iter: I, n: u32) -> Option<I::Item> {
     for _ in 0..n {
         iter.next();
